@@ -1551,7 +1551,10 @@ class SingleItemDecoder(object):
 
         value = noValue
 
-        substrate.markedPosition = substrate.tell()
+        if state is stDecodeTag:
+            # on re-entry past the header (untagged CHOICE) the mark
+            # stays at the start of the element: ANY re-reads from there
+            substrate.markedPosition = substrate.tell()
 
         while state is not stStop:
 
